@@ -99,6 +99,8 @@ impl BackendInternal {
             .sock
             .recv_body::<V>()
             .map_err(io_err_convert_fn("recv_body"))?;
+        #[cfg(feature = "verif-hooks")]
+        crate::verif::hit("gpu.received", &[0]);
         if !reply.is_reply_for(hdr) || rfds.is_some() || !body.is_valid() {
             return Err(io_err_convert_fn("Unexpected reply")(Error::InvalidMessage));
         }
